@@ -433,6 +433,13 @@ class Interp:
                     hits += 1 if r else 0
                 return {'std::find_if': ('it', b[1], e[2]), 'std::all_of': True, 'std::any_of': False, 'std::none_of': True, 'std::for_each': lam, 'std::count_if': hits}[cs]
             raise OutOfFragment('%s form at %s' % (cs, fn.loc(n)))
+        if k == 'CXXOperatorCallExpr' and n.get('op') in ('++', '--') and cs.startswith('__gnu_cxx::__normal_iterator') and n.get('args'):
+            v = self.eval(fn, S[n['args'][0]], env)
+            if isinstance(v, tuple) and len(v) == 3 and v[0] == 'it':
+                nv = ('it', v[1], v[2] + (1 if n['op'] == '++' else -1))
+                self.assign(fn, S[n['args'][0]], nv, env)
+                return v if len(n['args']) > 1 else nv      # postfix form carries a dummy int argument
+            raise OutOfFragment('iterator increment form at %s' % fn.loc(n))
         if k == 'CXXOperatorCallExpr' and cs in ('__gnu_cxx::operator==', '__gnu_cxx::operator!=') and len(n.get('args', [])) == 2:
             a, b = (self.eval(fn, S[x], env) for x in n['args'])
             if isinstance(a, tuple) and isinstance(b, tuple) and a[0] == 'it' and b[0] == 'it':
